@@ -154,6 +154,33 @@ def handleLoad (args res : List String) : Verdict :=
       | _, _ => .bad "parse"
   | _ => .bad "parse"
 
+/-- `nn_bin`: the binary image (hex) and the text tokens of the same tree: the byte-level model of `Load` must read the same
+    tree from the bytes as the token-level model from the text, and the model of `Save` must reproduce the bytes -/
+def hexBytes (h : String) : Option (List Nat) :=
+  let rec go : List Char → Option (List Nat)
+    | [] => some []
+    | [_] => none
+    | a :: b :: rest => do
+      let x ← hexDigit a; let y ← hexDigit b
+      let r ← go rest
+      pure ((x * 16 + y) :: r)
+  go h.toList
+
+def handleBin (res : List String) : Verdict :=
+  match res with
+  | "B" :: hex :: "T" :: toks =>
+    match hexBytes hex, toks.mapM parseI with
+    | some bytes, some ts =>
+      match loadBin realspec maxbucket bytes, load realspec maxbucket ts with
+      | .ok tb, .ok tt =>
+        if tb != tt then .bad "the binary image and the text image of the same object decode to different trees (model of the two layouts)"
+        else if saveBin realspec tb != bytes then .bad "model of Save(bin) does not reproduce the bytes written by the implementation"
+        else .ok
+      | .error e, _ => .bad s!"byte-level model of Load rejects the binary image written by Save: {e}"
+      | _, .error e => .bad s!"token-level model of Load rejects the text image written by Save: {e}"
+    | _, _ => .bad "parse"
+  | _ => .bad "parse"
+
 /-! ## projections -/
 open GeoVerif.GeodProj
 
@@ -250,6 +277,7 @@ def handle (op : String) (args res : List String) : Option Verdict :=
   match op with
   | "nn_search" => some (handleSearch args res)
   | "nn_load" => some (handleLoad args res)
+  | "nn_bin" => some (handleBin res)
   | "nn_bulk" | "nn_geo" | "nn_loadraw" | "nn_loaddag" => some (.skip "brute-force / robustness oracle in the harness")
   | _ =>
     if op.startsWith "ixm_" then handleIxm op args res
